@@ -25,8 +25,10 @@ def static_part(ctx, T=T, stem="Shapes", prefix="shape"):
     ctx.extra["generated_build_ok"] = r.returncode == 0
     missing = [t["site"] for t in table if not t["found"]]
     if r.returncode == 0:
-        names = [f"PsVerif.Gen.{t['theorem']}" for t in table if t["found"]] + \
-                [f"PsVerif.Gen.{'loop' if t['site'] == 'Polygon' else 'indices'}_{t['site']}" for t in table if t["found"] and t["site"] != "DfBox"]
+        names = [f"PsVerif.Gen.{t['theorem']}" for t in table if t["found"] and not t.get("theorems")] + \
+                [f"PsVerif.Gen.{'loop' if t['site'] == 'Polygon' else 'indices'}_{t['site']}" for t in table
+                 if t["found"] and t["site"] != "DfBox" and not t.get("theorems")] + \
+                [f"PsVerif.Gen.{n}" for t in table if t["found"] for n in t.get("theorems", [])]
         aud = C.LEAN / "Audit" / f"Generated{stem}.lean"
         text_a = f"import PsVerif.Generated.{stem}\n" + "\n".join(f"#print axioms {n}" for n in names) + "\n"
         if not aud.exists() or aud.read_text() != text_a:
@@ -34,7 +36,7 @@ def static_part(ctx, T=T, stem="Shapes", prefix="shape"):
         ra_rc, ra_out = C.cached_lean_audit(f"Audit/Generated{stem}.lean".split("/", 1)[1])
         flat = (ra_out).replace("\n ", " ").replace("\n", " ")
         axioms = {}
-        for m in re.finditer(r"'PsVerif\.Gen\.((?:shape|indices|loop|box)_\w+)' (?:depends on axioms: \[([^\]]*)\]|does not depend on any axioms)", flat):
+        for m in re.finditer(r"'PsVerif\.Gen\.((?:shape|indices|loop|box|normcalc|mask)_\w+)' (?:depends on axioms: \[([^\]]*)\]|does not depend on any axioms)", flat):
             axioms[m.group(1)] = [a.strip() for a in (m.group(2) or "").split(",") if a.strip()]
         nonstd = {k: [a for a in v if a not in C.ALLOWED_AXIOMS] for k, v in axioms.items()}
         nonstd = {k: v for k, v in nonstd.items() if v}
@@ -44,7 +46,7 @@ def static_part(ctx, T=T, stem="Shapes", prefix="shape"):
         ctx.extra["generated_theorems"] = sorted(axioms)
         return missing, table
     text = out.read_text().splitlines()
-    starts = [(i + 1, m.group(1)) for i, l in enumerate(text) for m in [re.match(r"theorem (?:shape|box)_(\w+?)(?:_edge)? ", l)] if m]
+    starts = [(i + 1, m.group(1)) for i, l in enumerate(text) for m in [re.match(r"theorem (?:shape|box|normcalc|mask)_(\w+?)(?:_edge)? ", l)] if m]
     bad = []
     for m in re.finditer(r"(?:error: \S*" + stem + r"\.lean:(\d+):\d+)|(?:" + stem + r"\.lean:(\d+):\d+: error)", r.stdout + r.stderr):
         ln = int(m.group(1) or m.group(2))
@@ -61,6 +63,15 @@ def static_part(ctx, T=T, stem="Shapes", prefix="shape"):
             owner = nxt[0] if nxt else owner
         if owner and owner not in bad:
             bad.append(owner)
+    for m in re.finditer(r"(?:error: \S*" + stem + r"Defs\.lean:(\d+):\d+)|(?:" + stem + r"Defs\.lean:(\d+):\d+: error)", r.stdout + r.stderr):
+        dtext = (C.LEAN / "PsVerif" / "Generated" / f"{stem}Defs.lean").read_text().splitlines()
+        ln = int(m.group(1) or m.group(2))
+        for k in range(min(ln, len(dtext)) - 1, -1, -1):
+            mm = re.match(r"def gen_(\w+)", dtext[k])
+            if mm:
+                if mm.group(1) not in bad:
+                    bad.append(mm.group(1))
+                break
     for s in missing:
         if s not in bad:
             bad.append(s)
